@@ -403,12 +403,7 @@ func c10One(c *h.Ctx, id string, r *rand.Rand, cfg c10Cfg, msgs []*c10Msg) {
 		}
 	}
 	// ---- receiver-side oracle
-	var delivered []*defn.Pkt
-	for _, t := range rts {
-		i, d := t.Take()
-		delivered = append(delivered, i...)
-		delivered = append(delivered, d...)
-	}
+	delivered := fwenv.TakeAll(rts)
 	for i, m := range msgs {
 		if len(all[i].frames) == 0 {
 			continue // dropped at the sender (fragmentation disabled and oversize): nothing to deliver
